@@ -70,6 +70,7 @@ type depTruth struct {
 	MinDeposit uint64
 	ELSeen     int
 	Malformed  bool // mined on purpose with a layout that must never be credited
+	Layout     int
 }
 
 func (d *depTruth) id() string { return fmt.Sprintf("%x/%d", d.Txid, d.Vout) }
